@@ -1,221 +1,249 @@
 ----------------------------- MODULE Trace_C04 ----------------------------
 (* Trace specification for C04: quaternion, matrix, axis-angle and Euler forms of a rotation agree.
    Every event is one GLM call (or the composition named by the property) on floating inputs that
-   the harness logged as bit patterns; the expected value is computed here, exactly, over Q, from
-   those inputs (and from the rational <<cos, sin>> pairs "cs" / "hcs" for angle arguments), and
-   the observed result must lie within k * eps * scale of it (k per operation, justified in
-   notes/C04-notes.md).  Exact operations (negation, conjugate, constructors, memory order) are
-   compared as values with tolerance 0.  Stateless. *)
+   the harness logged as bit patterns.  The expected value is computed here, exactly, from those
+   inputs (and from the integers "cs" / "hcs" = (cn, sn, d) with cos = cn/d, sin = sn/d for angle
+   arguments), with the dyadic evaluators of GlmQuat (twins of the LinQ definitions, proved equal
+   to them on the state space of MC_C04); the observed result must lie within k * eps * scale of
+   it (k per operation, justified in notes/C04-notes.md).  Exact operations (negation, conjugate,
+   constructors, memory order) are compared with tolerance 0 / as bit patterns.  Stateless. *)
 EXTENDS GlmQuat, TraceBase
 VARIABLE l
 vars == <<l>>
 
 Fm(ev) == TypeFmt(ev.t)
-EpsQ(ev) == QFromD(Eps(Fm(ev)))
-Tol(ev, k) == QMulInt(EpsQ(ev), k)
-TolS(ev, k, scale) == QMul(QMulInt(EpsQ(ev), k), scale)
-Arg(ev, i) == QSeqC(ev.a[i])
-Res(ev) == QSeqC(ev.r)
+EpsD(ev) == Eps(Fm(ev))
+Tol(ev, k) == DMulInt(EpsD(ev), k)
+TolS(ev, k, scale) == DMul(DMulInt(EpsD(ev), k), scale)
+Arg(ev, i) == DSeqW(ev.a[i])
+Res(ev) == DSeqW(ev.r)
 ExtraKeys == {"m", "cj", "d", "ang", "ax", "eu", "ocs", "raw", "idx"}
 FinArgs(ev) == \A i \in 1..Len(ev.a) : AllFinF(ev.a[i])
 FinOut(ev) == (Has(ev, "r") => AllFinF(ev.r)) /\ \A k \in ExtraKeys \cap DOMAIN ev : AllFinF(ev[k])
-UnitQ(ev, q) == QLe(QAbs(QSub(QuatNorm2(q), QOne)), Tol(ev, 4))
-ScaleV(v) == QMax(QOne, Sum1(v))
-Cs(ev) == CsPairs(ev.cs)
-Hcs(ev) == CsPairs(ev.hcs)
-PairsOK(ps) == \A i \in 1..Len(ps) : CsOnCircle(ps[i])
-Top3(m4) == Mat(3, 3, << m4[1], m4[2], m4[3], m4[5], m4[6], m4[7], m4[9], m4[10], m4[11] >>)      \* upper-left 3x3 of a logged 4x4
-Pad4Exact(m4) == \A k \in {4, 8, 12, 13, 14, 15} : QIsZero(m4[k])                                  \* last row / column 0 0 0 1 exactly
-Pad4(m4) == Pad4Exact(m4) /\ QEq(m4[16], QOne)
-MatArg(s) == IF Len(s) = 9 THEN Mat(3, 3, s) ELSE Top3(s)
+NearOne(ev, x, k) == DLe(DAbs(DSub(x, DOne)), Tol(ev, k))
+UnitQ(ev, q) == NearOne(ev, DqNorm2(q), 4)
+ScaleV(v) == DMax(DOne, DvSum1(v))
+Cs(ev) == DTriples(DIntSeq(ev.cs))
+Hcs(ev) == DTriples(DIntSeq(ev.hcs))
+TriplesOK(ts) == \A i \in 1..Len(ts) : DTripleOK(ts[i])
+Top3(m4) == << m4[1], m4[2], m4[3], m4[5], m4[6], m4[7], m4[9], m4[10], m4[11] >>      \* upper-left 3x3 of a logged 4x4
+Pad4Zero(m4) == \A k \in {4, 8, 12, 13, 14, 15} : DIsZero(m4[k])                         \* last row / column 0 0 0 . exactly
+Pad4(m4) == Pad4Zero(m4) /\ DEq(m4[16], DOne)
+MatArg(s) == IF Len(s) = 9 THEN s ELSE Top3(s)
 VB(b) == VBool(b)
 UnitOr(ev, q, v) == IF UnitQ(ev, q) THEN v ELSE VSkip           \* laws stated for unit quaternions only
+Zeros(n) == [i \in 1..n |-> DZero]
 
 \* ---------------------------------------------------------------- quaternion -> matrix, matrix -> quaternion
-JMat3(ev) == LET q == Arg(ev, 1) IN UnitOr(ev, q, VB(MaxDiffLe(Res(ev), QuatToMat3(q).e, Tol(ev, 16))))
-JMat4(ev) == LET q == Arg(ev, 1) r == Res(ev) IN UnitOr(ev, q, VB(Pad4(r) /\ MaxDiffLe(Top3(r).e, QuatToMat3(q).e, Tol(ev, 16))))
-JCastRt(ev) == LET q == Arg(ev, 1) IN UnitOr(ev, q, VB(PMDiffLe(Res(ev), q, Tol(ev, 16))))
-\* quat_cast on an arbitrary (near-)rotation matrix: the result must describe that matrix; when the matrix was built from the integer
-\* tuple g the result must be +-g/n as well
-GQuat(ev) == LET g == ev.g IN [i \in 1..4 |-> QOfIntW(g[i], g[5])]
-JQuatCast(ev) == LET a == Arg(ev, 1) m == MatArg(a) r == Res(ev) IN
-    VB(/\ MaxDiffLe(QuatToMat3(r).e, m.e, Tol(ev, 32))
-       /\ QLe(QAbs(QSub(QuatNorm2(r), QOne)), Tol(ev, 16))
-       /\ (Has(ev, "g") => PMDiffLe(r, GQuat(ev), Tol(ev, 16))))
+JMat3(ev) == LET q == Arg(ev, 1) IN UnitOr(ev, q, VB(DMaxDiffLe(Res(ev), DqToMat3(q), Tol(ev, 16))))
+JMat4(ev) == LET q == Arg(ev, 1) r == Res(ev) IN UnitOr(ev, q, VB(Pad4(r) /\ DMaxDiffLe(Top3(r), DqToMat3(q), Tol(ev, 16))))
+JCastRt(ev) == LET q == Arg(ev, 1) IN UnitOr(ev, q, VB(DPMDiffLe(Res(ev), q, Tol(ev, 16))))
+\* quat_cast on an arbitrary (near-)rotation matrix: the result must describe that matrix and be a unit quaternion; when the matrix was
+\* built from the integer tuple g = (w, x, y, z, n) the result must be +-(w, x, y, z)/n as well
+JQuatCast(ev) == LET m == MatArg(Arg(ev, 1)) r == Res(ev) IN
+    VB(/\ DMaxDiffLe(DqToMat3(r), m, Tol(ev, 32))
+       /\ NearOne(ev, DqNorm2(r), 16)
+       /\ (Has(ev, "g") => LET g == DIntSeq(ev.g) gq == << g[1], g[2], g[3], g[4] >> IN
+              DMaxDiffLeS(r, gq, Tol(ev, 16), g[5]) \/ DMaxDiffLeS(r, DvNeg(gq), Tol(ev, 16), g[5])))
 
 \* ---------------------------------------------------------------- rotation of vectors
-RotExp(q, v) == IF Len(v) = 4 THEN QuatRotateC(q, V3(v)) \o << v[4] >> ELSE QuatRotateC(q, v)
-JQV(ev, inv) == LET q == Arg(ev, 1) v == Arg(ev, 2) qq == IF inv THEN QuatConj(q) ELSE q
-                IN UnitOr(ev, q, VB(MaxDiffLe(Res(ev), RotExp(qq, v), TolS(ev, 16, ScaleV(V3(v))))))
+RotExp(q, v) == IF Len(v) = 4 THEN DqRotate(q, DV3(v)) \o << v[4] >> ELSE DqRotate(q, v)
+JQV(ev, inv) == LET q == Arg(ev, 1) v == Arg(ev, 2) qq == IF inv THEN DqConj(q) ELSE q
+                IN UnitOr(ev, q, VB(DMaxDiffLe(Res(ev), RotExp(qq, v), TolS(ev, 16, ScaleV(DV3(v))))))
 
 \* ---------------------------------------------------------------- products, inverse, conjugate
 JQMul(ev) == LET p == Arg(ev, 1) q == Arg(ev, 2) IN
-    IF ~(UnitQ(ev, p) /\ UnitQ(ev, q)) THEN VSkip ELSE VB(MaxDiffLe(Res(ev), QuatMul(p, q), Tol(ev, 8)))
-JMatProd(ev) == LET p == Arg(ev, 1) q == Arg(ev, 2) e == MMul(QuatToMat3(p), QuatToMat3(q)).e IN
+    IF ~(UnitQ(ev, p) /\ UnitQ(ev, q)) THEN VSkip ELSE VB(DMaxDiffLe(Res(ev), DqMul(p, q), Tol(ev, 8)))
+\* matrix of p q  =  matrix(p) matrix(q): both logged matrices against the exact one (the identity Mat(p q) = Mat(p) Mat(q) is an
+\* invariant of MC_C04, so the cheaper left side is evaluated)
+JMatProd(ev) == LET p == Arg(ev, 1) q == Arg(ev, 2) e == DqToMat3(DqMul(p, q)) IN
     IF ~(UnitQ(ev, p) /\ UnitQ(ev, q)) THEN VSkip
-    ELSE VB(MaxDiffLe(Res(ev), e, Tol(ev, 32)) /\ MaxDiffLe(QSeqC(ev.m), e, Tol(ev, 32)))
-JConjInv(ev) == LET q == Arg(ev, 1) cj == QSeqC(ev.cj) IN
-    UnitOr(ev, q, VB(AllEq(cj, QuatConj(q)) /\ MaxDiffLe(Res(ev), cj, Tol(ev, 4))))
-JQMulInv(ev) == LET q == Arg(ev, 1) IN IF QIsZero(QuatNorm2(q)) THEN VSkip ELSE VB(MaxDiffLe(Res(ev), QId, Tol(ev, 8)))
-JInverse(ev) == LET q == Arg(ev, 1) IN IF QIsZero(QuatNorm2(q)) THEN VSkip ELSE VB(NearAllOwn(Res(ev), QuatInv(q), 4, QZero, Fm(ev)))
-JExact(ev, e) == VB(AllEq(Res(ev), e))
-JRounded(ev, e, k) == VB(NearAllOwn(Res(ev), e, k, QZero, Fm(ev)))
-JDot(ev) == LET p == Arg(ev, 1) q == Arg(ev, 2) IN VB(NearRel(Res(ev)[1], VDot(p, q), 4, VDotAbs(p, q), Fm(ev)))
-JLength(ev) == LET q == Arg(ev, 1) IN VB(IsSqrtNear(Res(ev)[1], QuatNorm2(q), Tol(ev, 2)))
-JNormalize(ev) == LET q == Arg(ev, 1) r == Res(ev) n == QuatNorm2(q) IN
-    IF QIsZero(n) THEN VSkip
-    ELSE VB(\A i \in 1..4 : QSign(r[i]) = QSign(q[i]) /\ QLe(QAbs(QSub(QMul(Sq(r[i]), n), Sq(q[i]))), QMul(Tol(ev, 8), Sq(q[i]))))
+    ELSE VB(DMaxDiffLe(Res(ev), e, Tol(ev, 32)) /\ DMaxDiffLe(DSeqW(ev.m), e, Tol(ev, 32)))
+JConjInv(ev) == LET q == Arg(ev, 1) cj == DSeqW(ev.cj) IN
+    UnitOr(ev, q, VB(DvEq(cj, DqConj(q)) /\ DMaxDiffLe(Res(ev), cj, Tol(ev, 4))))
+JQMulInv(ev) == LET q == Arg(ev, 1) IN IF DIsZero(DqNorm2(q)) THEN VSkip ELSE VB(DMaxDiffLe(Res(ev), DQId, Tol(ev, 8)))
+\* inverse(q) = conj(q) / |q|^2 :  | r_i |q|^2 - conj_i | <= 4 eps |conj_i|
+JInverse(ev) == LET q == Arg(ev, 1) n == DqNorm2(q) cj == DqConj(q) r == Res(ev) IN
+    IF DIsZero(n) THEN VSkip ELSE VB(\A i \in 1..4 : DLe(DAbs(DSub(DMul(r[i], n), cj[i])), DMul(Tol(ev, 4), DAbs(cj[i]))))
+JExact(ev, e) == VB(DvEq(Res(ev), e))
+JRounded(ev, e, k) == VB(DNearOwn(Res(ev), e, k, Fm(ev)))
+JSDiv(ev) == LET q == Arg(ev, 1) s == Arg(ev, 2)[1] r == Res(ev) IN
+    IF DIsZero(s) THEN VSkip ELSE VB(\A i \in 1..4 : DLe(DAbs(DSub(DMul(r[i], s), q[i])), DMul(Tol(ev, 1), DAbs(q[i]))))
+JDot(ev) == LET p == Arg(ev, 1) q == Arg(ev, 2) sc == DSum([i \in 1..4 |-> DAbs(DMul(p[i], q[i]))])
+            IN VB(DLe(DAbs(DSub(Res(ev)[1], DvDot(p, q))), TolS(ev, 4, sc)))
+JLength(ev) == LET q == Arg(ev, 1) IN VB(DIsSqrtNear(Res(ev)[1], DqNorm2(q), Tol(ev, 2)))
+JLength2(ev) == LET n == DqNorm2(Arg(ev, 1)) IN VB(DLe(DAbs(DSub(Res(ev)[1], n)), TolS(ev, 4, n)))
+JNormalize(ev) == LET q == Arg(ev, 1) r == Res(ev) n == DqNorm2(q) IN
+    IF DIsZero(n) THEN VSkip
+    ELSE VB(\A i \in 1..4 : DSign(r[i]) = DSign(q[i]) /\ DLe(DAbs(DSub(DMul(DSq(r[i]), n), DSq(q[i]))), DMul(Tol(ev, 8), DSq(q[i]))))
 
 \* ---------------------------------------------------------------- angle / axis / angleAxis
 \* "ocs" = (cos, sin) of half the returned angle, decoded by the harness in long double
-JAngle(ev) == LET q == Arg(ev, 1) o == QSeqC(ev.ocs) IN
-    UnitOr(ev, q, VB(/\ QLe(QAbs(QSub(o[1], q[1])), Tol(ev, 16))
-                     /\ QLe(QAbs(QSub(Sq(o[2]), VNorm2(QVec(q)))), Tol(ev, 16))
-                     /\ QLe(QNeg(Tol(ev, 16)), o[2])))
+JAngle(ev) == LET q == Arg(ev, 1) o == DSeqW(ev.ocs) IN
+    UnitOr(ev, q, VB(/\ DLe(DAbs(DSub(o[1], q[1])), Tol(ev, 16))
+                     /\ DLe(DAbs(DSub(DSq(o[2]), DvNorm2(DQVec(q)))), Tol(ev, 16))
+                     /\ DLe(DNeg(Tol(ev, 16)), o[2])))
 \* axis: parallel to (x, y, z), same direction; its length is 1 within the conditioning of 1 / sqrt(1 - w^2):
 \* | |r|^2 - 1 | (1 - w^2) <= 8 eps.  When 1 - w^2 <= eps the rotation is below the resolution of the format: any unit vector.
-JAxis(ev) == LET q == Arg(ev, 1) u == QVec(q) r == Res(ev) t == QSub(QOne, Sq(q[1])) dev == QAbs(QSub(VNorm2(r), QOne)) IN
+JAxis(ev) == LET q == Arg(ev, 1) u == DQVec(q) r == Res(ev) t == DSub(DOne, DSq(q[1])) dev == DAbs(DSub(DvNorm2(r), DOne)) IN
     UnitOr(ev, q,
-        IF QLe(t, EpsQ(ev)) THEN VB(QLe(dev, Tol(ev, 16)))
-        ELSE VB(/\ MaxDiffLe(VCross(r, u), << QZero, QZero, QZero >>, Tol(ev, 8))
-                /\ QSign(VDot(r, u)) >= 0
-                /\ QLe(QMul(dev, t), Tol(ev, 8))))
+        IF DLe(t, EpsD(ev)) THEN VB(DLe(dev, Tol(ev, 16)))
+        ELSE VB(/\ DMaxDiffLe(DvCross(r, u), Zeros(3), Tol(ev, 8))
+                /\ DSign(DvDot(r, u)) >= 0
+                /\ DLe(DMul(dev, t), Tol(ev, 8))))
 \* angleAxis(angle(q), axis(q)) = +-q within 64 eps; near w = +-1 the cancellation in 1 - w^2 (axis) costs up to half of the digits:
 \* accepted while the error e satisfies e <= 8 sqrt(eps) and the conditioning bound e^2 (1 - w^2) <= 16 eps^2 (or, when 1 - w^2 <= eps and
 \* axis() fell back to (0,0,1), e^2 <= 8 |xyz|^2 + 128 eps^2)
-AaModel(ev, r, q) == LET t == QSub(QOne, Sq(q[1])) e2 == Sq(EpsQ(ev)) IN
-    \/ (QSign(t) > 0 /\ SqDiffLe(r, q, t, QMulInt(e2, 16)))
-    \/ (QLe(t, EpsQ(ev)) /\ SqDiffLe(r, q, QOne, QAdd(QMulInt(VNorm2(QVec(q)), 8), QMulInt(e2, 128))))
-AaOk(ev, r, q) == MaxDiffLe(r, q, Tol(ev, 64)) \/ (SqDiffLe(r, q, QOne, Tol(ev, 64)) /\ AaModel(ev, r, q))
-JAaRt(ev) == LET q == Arg(ev, 1) r == Res(ev) IN UnitOr(ev, q, VB(AaOk(ev, r, q) \/ AaOk(ev, r, VNeg(q))))
+AaModel(ev, r, q) == LET t == DSub(DOne, DSq(q[1])) e2 == DSq(EpsD(ev)) IN
+    \/ (DSign(t) > 0 /\ DSqDiffLe(r, q, t, DMulInt(e2, 16)))
+    \/ (DLe(t, EpsD(ev)) /\ DSqDiffLe(r, q, DOne, DAdd(DMulInt(DvNorm2(DQVec(q)), 8), DMulInt(e2, 128))))
+AaOk(ev, r, q) == DMaxDiffLe(r, q, Tol(ev, 64)) \/ (DSqDiffLe(r, q, DOne, Tol(ev, 64)) /\ AaModel(ev, r, q))
+JAaRt(ev) == LET q == Arg(ev, 1) r == Res(ev) IN UnitOr(ev, q, VB(AaOk(ev, r, q) \/ AaOk(ev, r, DvNeg(q))))
+\* an integer axis of integer length len (len = 0: the axis argument is a unit vector, L = 1)
+AxLen(ev) == IF ev.len = 0 THEN DOne ELSE DI(ev.len)
+AxisOK(ev, ax) == IF ev.len = 0 THEN NearOne(ev, DvNorm2(ax), 4) ELSE DEq(DvNorm2(ax), DI(ev.len * ev.len))
 JAngleAxis(ev) == LET ax == Arg(ev, 2) h == Hcs(ev) IN
-    IF ~PairsOK(h) THEN VBad ELSE VB(MaxDiffLe(Res(ev), AngleAxisQ(h[1], ax), Tol(ev, 8)))
-\* an integer axis of integer length len (len = 0: the axis argument is a unit vector)
-AxisUnit(ev, ax) == IF ev.len = 0 THEN ax ELSE VScale(ax, QF(1, ev.len))
-AxisOK(ev, ax) == IF ev.len = 0 THEN QLe(QAbs(QSub(VNorm2(ax), QOne)), Tol(ev, 4)) ELSE QEq(VNorm2(ax), QI(ev.len * ev.len))
-JQRotate(ev) == LET q == Arg(ev, 1) ax == Arg(ev, 3) h == Hcs(ev) IN
-    IF ~PairsOK(h) \/ ~AxisOK(ev, ax) THEN VBad
-    ELSE UnitOr(ev, q, VB(MaxDiffLe(Res(ev), QuatMul(q, AngleAxisQ(h[1], AxisUnit(ev, ax))), Tol(ev, 8))))
+    IF ~TriplesOK(h) \/ ~NearOne(ev, DvNorm2(ax), 4) THEN VBad
+    ELSE VB(DMaxDiffLeS(Res(ev), DAngleAxiss(h[1], ax, DOne), Tol(ev, 8), h[1][3]))
+JQRotate(ev) == LET q == Arg(ev, 1) ax == Arg(ev, 3) h == Hcs(ev) L == AxLen(ev) IN
+    IF ~TriplesOK(h) \/ ~AxisOK(ev, ax) THEN VBad
+    ELSE UnitOr(ev, q, VB(DMaxDiffLeS(Res(ev), DqMul(q, DAngleAxiss(h[1], ax, L)), Tol(ev, 8), DMul(h[1][3], L))))
 
 \* ---------------------------------------------------------------- Euler angles of a quaternion
 \* (c, s) = decoded (cos, sin) of a returned angle; it must point along (X, Y) = (cos, sin) * cos(yaw): |c Y - s X| <= 8 eps, c X + s Y >= -8 eps
-AlongOK(ev, c, s, X, Y) == QLe(QAbs(QSub(QMul(c, Y), QMul(s, X))), Tol(ev, 8)) /\ QLe(QNeg(Tol(ev, 8)), QAdd(QMul(c, X), QMul(s, Y)))
-PitchOK(ev, q, c, s) == AlongOK(ev, c, s, PitchX(q), PitchY(q))
-RollOK(ev, q, c, s) == AlongOK(ev, c, s, RollX(q), RollY(q))
-YawOK(ev, q, c, s) == LET y == YawSin(q) yc == IF QLt(QOne, y) THEN QOne ELSE IF QLt(y, QI(-1)) THEN QI(-1) ELSE y
-                      IN QLe(QAbs(QSub(s, yc)), Tol(ev, 8)) /\ QLe(QNeg(Tol(ev, 8)), c)
-JEulerAngles(ev) == LET q == Arg(ev, 1) o == QSeqC(ev.ocs) IN
+AlongOK(ev, c, s, X, Y) == DLe(DAbs(DSub(DMul(c, Y), DMul(s, X))), Tol(ev, 8)) /\ DLe(DNeg(Tol(ev, 8)), DAdd(DMul(c, X), DMul(s, Y)))
+PitchOK(ev, q, c, s) == AlongOK(ev, c, s, DPitchX(q), DPitchY(q))
+RollOK(ev, q, c, s) == AlongOK(ev, c, s, DRollX(q), DRollY(q))
+YawOK(ev, q, c, s) == LET y == DYawSin(q) yc == IF DLt(DOne, y) THEN DOne ELSE IF DLt(y, DI(-1)) THEN DI(-1) ELSE y
+                      IN DLe(DAbs(DSub(s, yc)), Tol(ev, 8)) /\ DLe(DNeg(Tol(ev, 8)), c)
+JEulerAngles(ev) == LET q == Arg(ev, 1) o == DSeqW(ev.ocs) IN
     UnitOr(ev, q, VB(PitchOK(ev, q, o[1], o[2]) /\ YawOK(ev, q, o[3], o[4]) /\ RollOK(ev, q, o[5], o[6])))
-JPitch(ev) == LET q == Arg(ev, 1) o == QSeqC(ev.ocs) IN UnitOr(ev, q, VB(PitchOK(ev, q, o[1], o[2])))
-JYaw(ev) == LET q == Arg(ev, 1) o == QSeqC(ev.ocs) IN UnitOr(ev, q, VB(YawOK(ev, q, o[1], o[2])))
-JRoll(ev) == LET q == Arg(ev, 1) o == QSeqC(ev.ocs) IN UnitOr(ev, q, VB(RollOK(ev, q, o[1], o[2])))
+JPitch(ev) == LET q == Arg(ev, 1) o == DSeqW(ev.ocs) IN UnitOr(ev, q, VB(PitchOK(ev, q, o[1], o[2])))
+JYaw(ev) == LET q == Arg(ev, 1) o == DSeqW(ev.ocs) IN UnitOr(ev, q, VB(YawOK(ev, q, o[1], o[2])))
+JRoll(ev) == LET q == Arg(ev, 1) o == DSeqW(ev.ocs) IN UnitOr(ev, q, VB(RollOK(ev, q, o[1], o[2])))
 \* quat(eulerAngles(q)) describes the rotation of q: matrices agree within 64 eps; near gimbal lock (cos(yaw) -> 0) the three angles are
 \* conditioned like eps / cos(yaw): accepted up to 8 sqrt(eps) under the bound e cos(yaw) <= 16 eps; beyond 8 sqrt(eps) but inside that
 \* bound is the known loss of GLM's eulerAngles just outside its atan2(0,0) guard
-JEulerRt(ev) == LET q == Arg(ev, 1) r == Res(ev) mq == QuatToMat3(q).e mr == QuatToMat3(r).e cy2 == CosYaw2(q)
-                    model == SqDiffLe(mr, mq, cy2, QMulInt(Sq(EpsQ(ev)), 256)) IN
+JEulerRt(ev) == LET q == Arg(ev, 1) r == Res(ev) mq == DqToMat3(q) mr == DqToMat3(r) cy2 == DCosYaw2(q)
+                    model == DSqDiffLe(mr, mq, cy2, DMulInt(DSq(EpsD(ev)), 256)) IN
     UnitOr(ev, q,
-        IF MaxDiffLe(mr, mq, Tol(ev, 64)) THEN VOk
-        ELSE IF model /\ SqDiffLe(mr, mq, QOne, Tol(ev, 64)) THEN VOk
+        IF DMaxDiffLe(mr, mq, Tol(ev, 64)) THEN VOk
+        ELSE IF model /\ DSqDiffLe(mr, mq, DOne, Tol(ev, 64)) THEN VOk
         ELSE IF model THEN VKnown("KD-C04-euler-roundtrip-near-gimbal")
         ELSE VBad)
-JCtorEuler(ev) == LET h == Hcs(ev) IN IF ~PairsOK(h) THEN VBad ELSE VB(MaxDiffLe(Res(ev), EulerQuat(h[1], h[2], h[3]), Tol(ev, 8)))
+JCtorEuler(ev) == LET h == Hcs(ev) IN
+    IF ~TriplesOK(h) THEN VBad ELSE VB(DMaxDiffLeS(Res(ev), DEulerQuats(h[1], h[2], h[3]), Tol(ev, 8), DenProd(h)))
 
 \* ---------------------------------------------------------------- gtx/rotate_vector
-JRvRotate(ev) == LET v == Arg(ev, 1) ax == Arg(ev, 3) p == Cs(ev) IN
-    IF ~PairsOK(p) \/ ~AxisOK(ev, ax) THEN VBad
-    ELSE LET e3 == MVec(RotAxis3(p[1][1], p[1][2], AxisUnit(ev, ax)), V3(v)) e == IF Len(v) = 4 THEN e3 \o << v[4] >> ELSE e3
-         IN VB(MaxDiffLe(Res(ev), e, TolS(ev, 16, ScaleV(V3(v)))))
+JRvRotate(ev) == LET v == Arg(ev, 1) ax == Arg(ev, 3) p == Cs(ev) L == AxLen(ev) IN
+    IF ~TriplesOK(p) \/ ~AxisOK(ev, ax) THEN VBad
+    ELSE LET e3 == Dm3Vec(DRotAxiss(p[1], ax, L), DV3(v)) s == DMul(p[1][3], DSq(L))
+             e == IF Len(v) = 4 THEN e3 \o << DMul(v[4], s) >> ELSE e3
+         IN VB(DMaxDiffLeS(Res(ev), e, TolS(ev, 16, ScaleV(DV3(v))), s))
 JRotateXYZ(ev, ax) == LET v == Arg(ev, 1) p == Cs(ev) IN
-    IF ~PairsOK(p) THEN VBad
-    ELSE LET e3 == MVec(AxisRot(ax, p[1]), V3(v)) e == IF Len(v) = 4 THEN e3 \o << v[4] >> ELSE e3
-         IN VB(MaxDiffLe(Res(ev), e, TolS(ev, 8, ScaleV(V3(v)))))
+    IF ~TriplesOK(p) THEN VBad
+    ELSE LET e3 == Dm3Vec(DAxisRots(ax, p[1]), DV3(v)) s == p[1][3] e == IF Len(v) = 4 THEN e3 \o << DMul(v[4], s) >> ELSE e3
+         IN VB(DMaxDiffLeS(Res(ev), e, TolS(ev, 8, ScaleV(DV3(v))), s))
 JRotate2(ev) == LET v == Arg(ev, 1) p == Cs(ev) IN
-    IF ~PairsOK(p) THEN VBad ELSE VB(MaxDiffLe(Res(ev), MVec(Rot2(p[1]), v), TolS(ev, 8, ScaleV(v))))
+    IF ~TriplesOK(p) THEN VBad
+    ELSE LET t == p[1] e == << DSub(DMul(v[1], t[1]), DMul(v[2], t[2])), DAdd(DMul(v[1], t[2]), DMul(v[2], t[1])) >>
+         IN VB(DMaxDiffLeS(Res(ev), e, TolS(ev, 8, ScaleV(v)), t[3]))
 \* orientation(Normal, Up): the rotation about Up x Normal that takes Up to Normal (identity when they coincide)
-JOrientation(ev) == LET n == Arg(ev, 1) u == Arg(ev, 2) r == Res(ev) m == Top3(r) ax == VCross(u, n) tol == Tol(ev, 32) IN
-    IF ~(QLe(QAbs(QSub(VNorm2(n), QOne)), Tol(ev, 4)) /\ QLe(QAbs(QSub(VNorm2(u), QOne)), Tol(ev, 4))) THEN VSkip
-    ELSE VB(/\ Pad4(r) /\ MaxDiffLe(MVec(m, u), n, tol) /\ MaxDiffLe(MVec(m, ax), ax, tol)
-            /\ MaxDiffLe(MVec(m, VCross(u, ax)), VCross(n, ax), tol)
-            /\ (VIsZero(ax) => MaxDiffLe(m.e, MIdentity(3).e, tol)))
+JOrientation(ev) == LET n == Arg(ev, 1) u == Arg(ev, 2) r == Res(ev) m == Top3(r) ax == DvCross(u, n) tol == Tol(ev, 32) IN
+    IF ~(NearOne(ev, DvNorm2(n), 4) /\ NearOne(ev, DvNorm2(u), 4)) THEN VSkip
+    ELSE VB(/\ Pad4(r) /\ DMaxDiffLe(Dm3Vec(m, u), n, tol) /\ DMaxDiffLe(Dm3Vec(m, ax), ax, tol)
+            /\ DMaxDiffLe(Dm3Vec(m, DvCross(u, ax)), DvCross(n, ax), tol)
+            /\ (DvIsZero(ax) => DMaxDiffLe(m, Dm3Id, tol)))
 
 \* ---------------------------------------------------------------- rotation between two vectors
 \* Both functions must return the unit quaternion (w >= 0) that rotates u/|u| onto v/|v| about an axis orthogonal to both; when v = -u
-\* any axis orthogonal to u.  e = the largest of the residuals below.  Accepted: e <= 64 eps; or e <= 8 sqrt(eps) inside the model of the
-\* function's degenerate-case handling.  Inside the model but beyond 8 sqrt(eps): known deviation (see notes).
-UvData(ev) == LET u == Arg(ev, 1) v == Arg(ev, 2) IN
-    [uh |-> IF ev.lu = 0 THEN u ELSE VScale(u, QF(1, ev.lu)), vh |-> IF ev.lv = 0 THEN v ELSE VScale(v, QF(1, ev.lv))]
-UvDomain(ev, d) == IF ev.lu = 0 THEN QLe(QAbs(QSub(VNorm2(d.uh), QOne)), Tol(ev, 4)) /\ QLe(QAbs(QSub(VNorm2(d.vh), QOne)), Tol(ev, 4))
-                   ELSE QEq(VNorm2(d.uh), QOne) /\ QEq(VNorm2(d.vh), QOne)
-UvResid(d, r, anti) == << QSub(VNorm2(r), QOne) >> \o VSub(QuatRotateC(r, d.uh), d.vh)
-                       \o (IF anti THEN << VDot(QVec(r), d.uh) >> ELSE << VDot(QVec(r), d.uh), VDot(QVec(r), d.vh) >>)
-Zeros(n) == [i \in 1..n |-> QZero]
-JTwoVec(ev, fn) == LET d == UvData(ev) r == Res(ev) c == VDot(d.uh, d.vh) c1 == QAdd(QOne, c)
-                       anti == AllEq(d.vh, VNeg(d.uh)) res == UvResid(d, r, anti) z == Zeros(Len(res)) e2 == Sq(EpsQ(ev))
-                       fallback == QLe(QAbs(r[1]), Tol(ev, 8)) /\ QLe(QAbs(VDot(QVec(r), d.uh)), Tol(ev, 8)) /\ QLe(QAbs(QSub(VNorm2(r), QOne)), Tol(ev, 16))
-                       model == IF fn = "rotation"
-                                THEN \/ (QLe(QSub(QOne, c), Tol(ev, 2)) /\ AllEq(r, QId))                         \* cos >= 1 - eps: identity
-                                     \/ (QSign(c1) > 0 /\ SqDiffLe(res, z, Sq(c1), QMulInt(e2, 256)))               \* s = sqrt(2 (1 + cos)): e (1 + cos) <= 16 eps
-                                     \/ (QLe(c1, Tol(ev, 2)) /\ fallback)                                          \* cos < -1 + eps: a fixed orthogonal axis
-                                ELSE QSign(c1) >= 0 /\ QLt(c1, QF(101, 100000000)) /\ QIsZero(r[1]) /\ fallback   \* 1 + cos < 1e-6: treated as opposite
-                       kd == IF fn = "rotation" THEN "KD-C04-rotation-near-antiparallel" ELSE "KD-C04-quat-from-vectors-antiparallel-threshold"
-    IN IF ~UvDomain(ev, d) THEN VSkip
-       ELSE IF QSign(r[1]) < 0 /\ ~QLe(QAbs(r[1]), Tol(ev, 8)) THEN VBad
-       ELSE IF MaxDiffLe(res, z, Tol(ev, 64)) THEN VOk
-       ELSE IF model /\ SqDiffLe(res, z, QOne, Tol(ev, 64)) THEN VOk
+\* any axis orthogonal to u.  Integer vectors come with their integer lengths lu, lv (0 = unit vector); with L = lu lv the residuals
+\* are written without division:  |r|^2 - 1,  (R(r) u lv - v lu) / L,  (r.xyz . u) / lu,  (r.xyz . v) / lv  -- each value is kept with
+\* its divisor.  e = the largest residual.  Accepted: e <= 64 eps; or e <= 8 sqrt(eps) inside the model of the function's degenerate-case
+\* handling.  Inside the model but beyond 8 sqrt(eps): known deviation (see notes).
+LenOr1(n) == IF n = 0 THEN DOne ELSE DI(n)
+ResLe(vals, divs, tol) == \A i \in 1..Len(vals) : DLe(DAbs(vals[i]), DMul(tol, divs[i]))                       \* |val / div| <= tol
+ResSqLe(vals, divs, scale, bound) == \A i \in 1..Len(vals) : DLe(DMul(DSq(vals[i]), scale), DMul(bound, DSq(divs[i])))   \* (val/div)^2 scale <= bound
+JTwoVec(ev, fn) ==
+    LET u == Arg(ev, 1) v == Arg(ev, 2) r == Res(ev) lu == LenOr1(ev.lu) lv == LenOr1(ev.lv) L == DMul(lu, lv)
+        dom == IF ev.lu = 0 THEN NearOne(ev, DvNorm2(u), 4) /\ NearOne(ev, DvNorm2(v), 4)
+               ELSE DEq(DvNorm2(u), DSq(lu)) /\ DEq(DvNorm2(v), DSq(lv))
+        cL == DvDot(u, v)                                   \* cos * L
+        c1L == DAdd(L, cL)                                  \* (1 + cos) * L
+        anti == DvEq(DvScale(v, lu), DvNeg(DvScale(u, lv)))
+        ru == DqRotate(r, u)
+        rvec == DQVec(r)
+        vals == << DSub(DqNorm2(r), DOne) >> \o DvSub(DvScale(ru, lv), DvScale(v, lu)) \o << DvDot(rvec, u) >> \o (IF anti THEN << >> ELSE << DvDot(rvec, v) >>)
+        divs == << DOne, L, L, L, lu >> \o (IF anti THEN << >> ELSE << lv >>)
+        e2 == DSq(EpsD(ev))
+        fallback == DLe(DAbs(r[1]), Tol(ev, 8)) /\ DLe(DAbs(DvDot(rvec, u)), DMul(Tol(ev, 8), lu)) /\ NearOne(ev, DqNorm2(r), 16)
+        model == IF fn = "rotation"
+                 THEN \/ (DLe(DSub(L, cL), DMul(Tol(ev, 2), L)) /\ DvEq(r, DQId))                          \* cos >= 1 - eps: identity
+                      \/ (DSign(c1L) > 0 /\ ResSqLe(vals, divs, DSq(c1L), DMul(DMulInt(e2, 256), DSq(L))))   \* s = sqrt(2 (1 + cos)): e (1 + cos) <= 16 eps
+                      \/ (DLe(c1L, DMul(Tol(ev, 2), L)) /\ fallback)                                        \* cos < -1 + eps: a fixed orthogonal axis
+                 ELSE \/ (DSign(c1L) > 0 /\ ResSqLe(vals, divs, DMul2k(c1L, 1), DMul(DMulInt(e2, 256), L)))          \* w = (1 + cos) / |..|: e sqrt(2 (1 + cos)) <= 16 eps
+                      \/ (DLt(DMulInt(c1L, 100000000), DMulInt(L, 101)) /\ DIsZero(r[1]) /\ fallback)   \* 1 + cos < 1e-6: treated as opposite
+        kd == IF fn = "rotation" THEN "KD-C04-rotation-near-antiparallel" ELSE "KD-C04-quat-from-vectors-antiparallel-threshold"
+    IN IF ~dom THEN VSkip
+       ELSE IF DSign(r[1]) < 0 /\ ~DLe(DAbs(r[1]), Tol(ev, 8)) THEN VBad
+       ELSE IF ResLe(vals, divs, Tol(ev, 64)) THEN VOk
+       ELSE IF model /\ ResSqLe(vals, divs, DOne, Tol(ev, 64)) THEN VOk
        ELSE IF model THEN VKnown(kd)
        ELSE VBad
 
 \* ---------------------------------------------------------------- gtx/euler_angles
-EulerExp(ev) ==
-    LET p == Cs(ev) IN
-    CASE ev.op = "euler" -> EulerMat(ev.nm, p)
-      [] ev.op = "yawPitchRoll" -> YawPitchRollMat(p)
-      [] ev.op \in {"orientate3", "orientate4"} -> OrientateMat(p)
-      [] ev.op = "orientate3s" -> RotZ(p[1][1], p[1][2])
-      [] ev.op = "orientate2" -> Rot2(p[1])
-      [] ev.op = "deuler" -> DAxisRot(ev.nm, p[1], Arg(ev, 2)[1])
-JEuler(ev) == LET r == Res(ev) IN
-    IF ~PairsOK(Cs(ev)) THEN VBad
-    ELSE LET e == EulerExp(ev) tol == IF ev.op = "deuler" THEN TolS(ev, 16, QMax(QOne, QAbs(Arg(ev, 2)[1]))) ELSE Tol(ev, 16) IN
-         IF Len(r) = 16 THEN VB((IF ev.op = "deuler" THEN Pad4Exact(r) /\ QIsZero(r[16]) ELSE Pad4(r)) /\ MaxDiffLe(Top3(r).e, e.e, tol))
-         ELSE VB(MaxDiffLe(r, e.e, tol))
+\* expected matrix times the product of the denominators of the angle triples
+EulerExps(ev, p) ==
+    CASE ev.op = "euler" -> DEulerMats(ev.nm, p)
+      [] ev.op = "yawPitchRoll" -> DEulerMats("YXZ", p)
+      [] ev.op \in {"orientate3", "orientate4"} -> DEulerMats("YXZ", << p[3], p[1], p[2] >>)
+      [] ev.op = "orientate3s" -> DRotZs(p[1])
+      [] ev.op = "deuler" -> DDAxisRots(ev.nm, p[1], Arg(ev, 2)[1])
+JEuler(ev) == LET r == Res(ev) p == Cs(ev) IN
+    IF ~TriplesOK(p) THEN VBad
+    ELSE IF ev.op = "orientate2" THEN VB(DMaxDiffLeS(r, << p[1][1], p[1][2], DNeg(p[1][2]), p[1][1] >>, Tol(ev, 16), p[1][3]))
+    ELSE LET e == EulerExps(ev, p) s == DenProd(p)
+             tol == IF ev.op = "deuler" THEN TolS(ev, 16, DMax(DOne, DAbs(Arg(ev, 2)[1]))) ELSE Tol(ev, 16) IN
+         IF Len(r) = 16 THEN VB((IF ev.op = "deuler" THEN Pad4Zero(r) /\ DIsZero(r[16]) ELSE Pad4(r)) /\ DMaxDiffLeS(Top3(r), e, tol, s))
+         ELSE VB(DMaxDiffLeS(r, e, tol, s))
 \* extractEulerAngleABC(M): the returned angles (decoded as (cos, sin) pairs "ocs") must rebuild M as the product of the single-axis
 \* factors, and GLM's own eulerAngleABC of them (the logged rebuild) must reproduce M as well
-JExtract(ev) == LET m == Arg(ev, 1) o == QSeqC(ev.ocs) ps == << <<o[1], o[2]>>, <<o[3], o[4]>>, <<o[5], o[6]>> >> r == Res(ev) IN
-    IF ~(Pad4(m) /\ MaxDiffLe(MMul(Top3(m), MTranspose(Top3(m))).e, MIdentity(3).e, Tol(ev, 16))) THEN VSkip      \* M must be a rotation
-    ELSE VB(/\ MaxDiffLe(EulerMat(ev.nm, ps).e, Top3(m).e, Tol(ev, 32))
-            /\ MaxDiffLe(r, m, Tol(ev, 32)))
+JExtract(ev) == LET m == Arg(ev, 1) m3 == Top3(m) o == DSeqW(ev.ocs) r == Res(ev)
+                    ps == << <<o[1], o[2], DOne>>, <<o[3], o[4], DOne>>, <<o[5], o[6], DOne>> >> IN
+    IF ~(Pad4(m) /\ DMaxDiffLe(Dm3Mul(m3, Dm3T(m3)), Dm3Id, Tol(ev, 16))) THEN VSkip      \* M must be a rotation
+    ELSE VB(/\ DMaxDiffLe(DEulerMats(ev.nm, ps), m3, Tol(ev, 32))
+            /\ DMaxDiffLe(r, m, Tol(ev, 32)))
 
-\* ---------------------------------------------------------------- storage order, constructors
+\* ---------------------------------------------------------------- storage order, constructors (bit patterns)
 JMem(ev) == LET q == ev.a[1] want == IF ev.o = "wxyz" THEN q ELSE << q[2], q[3], q[4], q[1] >> IN VB(ev.raw = want /\ ev.idx = want)
 JMakeQuat(ev) == LET raw == ev.a[1] want == IF ev.o = "wxyz" THEN raw ELSE << raw[4], raw[1], raw[2], raw[3] >> IN VB(ev.r = want)
 JCtor4(ev) == VB(ev.r = << ev.a[1][1], ev.a[2][1], ev.a[3][1], ev.a[4][1] >>)
 JCtorSV(ev) == VB(ev.r = << ev.a[1][1], ev.a[2][1], ev.a[2][2], ev.a[2][3] >>)
 JCopy(ev) == VB(ev.r = ev.a[1])
-JConv(ev) == LET q == QSeq(ev.a[1]) IN VB(\A i \in 1..4 : IsRNEQ(Fm(ev), Fields(Fm(ev), ev.r[i]), q[i]))
+JConv(ev) == LET q == Arg(ev, 1) IN VB(\A i \in 1..4 : IsRNED(Fm(ev), Fields(Fm(ev), ev.r[i]), q[i]))
 
-\* ---------------------------------------------------------------- dual quaternions
-DqScale(v) == QMax(QOne, Sum1(v))
-JDqCtor(ev) == LET q == Arg(ev, 1) p == Arg(ev, 2) e == DQMake(q, p) IN
-    VB(AllEq(Res(ev), q) /\ MaxDiffLe(QSeqC(ev.d), e[2], TolS(ev, 8, DqScale(p))))
-JDqMat3x4(ev) == LET re == Arg(ev, 1) du == Arg(ev, 2) IN
-    UnitOr(ev, re, VB(MaxDiffLe(Res(ev), DQMat3x4(re, du).e, TolS(ev, 16, DqScale(du)))))
+\* ---------------------------------------------------------------- dual quaternions (unit real part)
+JDqCtor(ev) == LET q == Arg(ev, 1) p == Arg(ev, 2) IN
+    VB(ev.r = ev.a[1] /\ DMaxDiffLe(DSeqW(ev.d), DDqDual(q, p), TolS(ev, 8, ScaleV(p))))
+\* mat3x4_cast: three columns of four rows; column k holds row k of [R | t]
+JDqMat3x4(ev) == LET re == Arg(ev, 1) du == Arg(ev, 2) R == DqToMat3(re) t == DDqTrans(re, du)
+                     e == << R[1], R[4], R[7], t[1], R[2], R[5], R[8], t[2], R[3], R[6], R[9], t[3] >> IN
+    UnitOr(ev, re, VB(DMaxDiffLe(Res(ev), e, TolS(ev, 16, ScaleV(du)))))
 JDqMat2x4(ev) == LET re == ev.a[1] du == ev.a[2] IN VB(ev.r = << re[2], re[3], re[4], re[1], du[2], du[3], du[4], du[1] >>)
 JDqCast2x4(ev) == LET m == ev.a[1] IN VB(ev.r = << m[4], m[1], m[2], m[3] >> /\ ev.d = << m[8], m[5], m[6], m[7] >>)
 \* dualquat_cast(mat3x4): the real part describes the 3x3 block (rows of the matrix), the dual part is (0, t) * real / 2
-JDqCast3x4(ev) == LET m == Arg(ev, 1) re == Res(ev) du == QSeqC(ev.d) t == << m[4], m[8], m[12] >>
+JDqCast3x4(ev) == LET m == Arg(ev, 1) re == Res(ev) du == DSeqW(ev.d) t == << m[4], m[8], m[12] >>
                       rot == << m[1], m[5], m[9], m[2], m[6], m[10], m[3], m[7], m[11] >> IN
-    VB(/\ MaxDiffLe(QuatToMat3(re).e, rot, Tol(ev, 32))
-       /\ MaxDiffLe(du, DQMake(re, t)[2], TolS(ev, 8, DqScale(t))))
-JDqRt(ev) == LET re == Arg(ev, 1) du == Arg(ev, 2) r == Res(ev) d == QSeqC(ev.d) tol == TolS(ev, 16, DqScale(du)) IN
-    UnitOr(ev, re, VB((MaxDiffLe(r, re, tol) /\ MaxDiffLe(d, du, tol)) \/ (MaxDiffLe(r, VNeg(re), tol) /\ MaxDiffLe(d, VNeg(du), tol))))
-JDqV(ev, inv) == LET re == Arg(ev, 1) du == Arg(ev, 2) v == Arg(ev, 3) t == DQTrans(re, du)
-                     e3 == IF inv THEN QuatRotateC(QuatConj(re), VSub(V3(v), t)) ELSE VAdd(QuatRotateC(re, V3(v)), t)
+    VB(/\ DMaxDiffLe(DqToMat3(re), rot, Tol(ev, 32))
+       /\ DMaxDiffLe(du, DDqDual(re, t), TolS(ev, 8, ScaleV(t))))
+JDqRt(ev) == LET re == Arg(ev, 1) du == Arg(ev, 2) r == Res(ev) d == DSeqW(ev.d) tol == TolS(ev, 16, ScaleV(du)) IN
+    UnitOr(ev, re, VB((DMaxDiffLe(r, re, tol) /\ DMaxDiffLe(d, du, tol)) \/ (DMaxDiffLe(r, DvNeg(re), tol) /\ DMaxDiffLe(d, DvNeg(du), tol))))
+JDqV(ev, inv) == LET re == Arg(ev, 1) du == Arg(ev, 2) v == Arg(ev, 3) t == DDqTrans(re, du)
+                     e3 == IF inv THEN DqRotate(DqConj(re), DvSub(DV3(v), t)) ELSE DvAdd(DqRotate(re, DV3(v)), t)
                      e == IF Len(v) = 4 THEN e3 \o << v[4] >> ELSE e3 IN
-    UnitOr(ev, re, VB(MaxDiffLe(Res(ev), e, TolS(ev, 16, QAdd(ScaleV(V3(v)), Sum1(t))))))
+    UnitOr(ev, re, VB(DMaxDiffLe(Res(ev), e, TolS(ev, 16, DAdd(ScaleV(DV3(v)), DvSum1(t))))))
 JDqInverse(ev) == LET re == Arg(ev, 1) du == Arg(ev, 2) IN
-    UnitOr(ev, re, VB(AllEq(Res(ev), QuatConj(re)) /\ MaxDiffLe(QSeqC(ev.d), QuatConj(du), TolS(ev, 8, DqScale(du)))))
+    UnitOr(ev, re, VB(DvEq(Res(ev), DqConj(re)) /\ DMaxDiffLe(DSeqW(ev.d), DqConj(du), TolS(ev, 8, ScaleV(du)))))
 
 \* ---------------------------------------------------------------- dispatch
 Judge(ev) ==
@@ -231,16 +259,16 @@ Judge(ev) ==
       [] op = "conj_inv" -> JConjInv(ev)
       [] op = "q_mul_inv" -> JQMulInv(ev)
       [] op = "inverse" -> JInverse(ev)
-      [] op = "neg" -> JExact(ev, VNeg(Arg(ev, 1)))
-      [] op = "conj" -> JExact(ev, QuatConj(Arg(ev, 1)))
+      [] op = "neg" -> JExact(ev, DvNeg(Arg(ev, 1)))
+      [] op = "conj" -> JExact(ev, DqConj(Arg(ev, 1)))
       [] op \in {"pos", "ctor_copy", "assign"} -> JCopy(ev)
-      [] op = "qadd" -> JRounded(ev, VAdd(Arg(ev, 1), Arg(ev, 2)), 1)
-      [] op = "qsub" -> JRounded(ev, VSub(Arg(ev, 1), Arg(ev, 2)), 1)
-      [] op \in {"smul", "smul_l", "smul_asg"} -> JRounded(ev, VScale(Arg(ev, 1), Arg(ev, 2)[1]), 1)
-      [] op \in {"sdiv", "sdiv_asg"} -> IF QIsZero(Arg(ev, 2)[1]) THEN VSkip ELSE JRounded(ev, VScale(Arg(ev, 1), QInv(Arg(ev, 2)[1])), 1)
+      [] op = "qadd" -> JRounded(ev, DvAdd(Arg(ev, 1), Arg(ev, 2)), 1)
+      [] op = "qsub" -> JRounded(ev, DvSub(Arg(ev, 1), Arg(ev, 2)), 1)
+      [] op \in {"smul", "smul_l", "smul_asg"} -> JRounded(ev, DvScale(Arg(ev, 1), Arg(ev, 2)[1]), 1)
+      [] op \in {"sdiv", "sdiv_asg"} -> JSDiv(ev)
       [] op = "dot" -> JDot(ev)
       [] op = "length" -> JLength(ev)
-      [] op = "length2" -> LET q == Arg(ev, 1) IN VB(NearRel(Res(ev)[1], QuatNorm2(q), 4, QuatNorm2(q), Fm(ev)))
+      [] op = "length2" -> JLength2(ev)
       [] op = "normalize" -> JNormalize(ev)
       [] op = "angle" -> JAngle(ev)
       [] op = "axis" -> JAxis(ev)
